@@ -327,12 +327,11 @@ class CoopThread(object):
         self._coop_target = target
         self._coop_args = tuple(args)
         self._coop_kwargs = dict(kwargs or {})
-        self.name = name
-        self.daemon = daemon
-        self.started = False
+        self._coop_name = name
+        self._coop_started = False
 
     def start(self):
-        self.started = True
+        self._coop_started = True
         SCHED.spawned.append(self)
 
     def run(self):
